@@ -78,7 +78,7 @@ class ValueProfile:
         if self.use_reg and world == "W-POSC" and rng.random() < 0.6:
             for n in range(rng.choice([1, 1, 2])):
                 q, us, cs = rng.choice(basis)
-                dyn_units.append({"sym": "simU%d" % n, "name": "sim unit %d" % n, "qt": q, "k": rng.choice([2.0, 10.0, 0.25, 1000.0]), "callable": rng.random() < 0.6})
+                dyn_units.append({"sym": "simU%d" % n, "name": "sim unit %d" % n, "qt": q, "k": rng.choice([2.0, 10.0, 0.25, 1000.0]), "callable": rng.choice([False, False, True, True, True, "recip"])})
         return {
             "prop": self.prop,
             "tier": tier,
@@ -270,7 +270,7 @@ class C13(ValueProfile):
     client_bias = {"validator": 1.5, "persister": 1.5, "registrar": 0.4}
 
     def monitors(self, cfg):
-        return [Mon.VSweep("C13")]
+        return [Mon.VSweep("C13"), Mon.ValidityWatch("C13")]
 
     def restart_check(self, sim, i, v, before, now, step):
         sim.check(
